@@ -199,6 +199,15 @@ class FGen(exprgen.Gen):
         return self._memo[key]
 
 
+    def depth1_one(self, w):
+        """One instance per node kind: children are distinct identifiers (x, y, x)."""
+        key = ("fd1one", w)
+        if key not in self._memo:
+            self._memo[key] = [build([self.ids(cw)[i % self.nids] for i, cw in enumerate(cws)])
+                               for tag, cws, build, comm in self.specs(w)]
+        return self._memo[key]
+
+
 def _sibc(w):
     return [1, mask(w), 1 << (w - 1)]
 
@@ -291,9 +300,9 @@ def fam_iter(fam, params, keep):
         for e in FGen(widths, keep).depth1(w):
             yield e
     elif fam == "d2":
-        widths, w, rich, nids, sib, k, K = params
-        g = FGen(widths, keep, nids=nids, rich_consts=rich, sib_consts=_sibc if sib == "3c" else _sib1)
-        pool = g.depth1 if rich else g.depth1_core
+        widths, w, pool, nids, sib, k, K = params
+        g = FGen(widths, keep, nids=nids, rich_consts=(pool == "full"), sib_consts=_sibc if sib == "3c" else _sib1)
+        pool = {"full": g.depth1, "core": g.depth1_core, "one": g.depth1_one}[pool]
         for e in g.depth2_spine(w, deep_pool=pool, k=k, K=K):
             yield e
     elif fam == "wide":
@@ -815,28 +824,20 @@ def shard_worker(args):
     return {"st": st, "vs": vs, "sample": sample, "accepted": sorted(acc), "rejected": sorted(set(rej) - set(acc))}
 
 
-LANES = 2
-
-
-def lane_worker(shards):
-    return [shard_worker(a) for a in shards]
-
-
 def run(ctx, make_backend, plan):
     """plan: list of (backend name, big_endian, family, params, nshards)."""
     shards = []
     for bname, be, fam, params, nsh in plan:
         for i in range(nsh):
             shards.append((make_backend, bname, be, fam, params, i, nsh, ctx.quick))
-    # Shards are dealt round-robin to LANES sequential lanes (one pool task each).  On the shared, oversubscribed
-    # machine the whole session gets a fixed CPU share: more concurrent workers only add switching overhead
-    # (measured: 16 workers 44 s, 4 workers 25 s, 2 workers 17 s for the same 21 CPU-seconds of work).
-    lanes = [shards[i::LANES] for i in range(LANES)]
-    res_l = ctx.pmap(lane_worker, [l for l in lanes if l])
-    res = [None] * len(shards)
-    for i, rl in enumerate(res_l):
-        for j, r in enumerate(rl):
-            res[i + j * LANES] = r
+    # Quick tier: in-process, no pool.  On the shared, oversubscribed machine (load 80-120 on 16 cores) forking the
+    # 16-worker pool and running the shards in it was measured 2-4x SLOWER than running them in the parent
+    # (21 s serial, 29 s with 2 workers, 44-85 s with 16) - the session gets a fixed CPU share and more
+    # processes only add fork/switch overhead.  The thorough tier (minutes of CPU) uses the pool.
+    if ctx.quick:
+        res = [shard_worker(a) for a in shards]
+    else:
+        res = ctx.pmap(shard_worker, shards)
     st = new_stats()
     per_family = {}
     samples = []
